@@ -201,7 +201,9 @@ def judge(ctx, templates, bind, strict, via, prefix="", quiet=False):
     if not M.matches(parts, text):
         mech = "render-mismatch"
         if not quiet:
-            mech += ":" + localise(ctx, templates, bind, strict, via)
+            # localising costs extra renderings: do it for the first mismatches of a shard only
+            seen = sum(v for k, v in ctx.violation_counts.items() if "render-mismatch" in k)
+            mech += ":" + (localise(ctx, templates, bind, strict, via) if seen < 60 else "not-localised")
         return fail(mech, "rendered text differs from the single-pass expansion",
                     expected=M.concrete(parts), actual=text, warnings=warnings)
     if not strict:
